@@ -13,11 +13,8 @@ GENERATORS = [rules.generate]
 LEAN_MODULES = ["FimVerif.Proofs.C09", "FimVerif.Drivers.TopoRun"]
 P = "FimVerif.C09."
 THEOREMS = [P + t for t in (
-    "atomic_addNode", "atomic_nodeNew", "atomic_setProps", "atomic_unsetProp", "atomic_rename",
-    "atomic_removeLink", "atomic_addGNode", "atomic_ifaceNew_orphan", "atomic_nsAddInterface_partial",
-    "nsAddInterface_counterexample", "atomic_linkNew_partial", "addLink_counterexample",
-    "atomic_addLink_partial", "atomic_svcNew_noifs", "atomic_addService_noifs", "atomic_nodeAddService_noifs",
-    "addFacility_counterexample", "addComponent_counterexample")]
+    "atomic_addGNode", "atomic_nodeNew", "atomic_addNode", "atomic_setProps", "atomic_unsetProp", "atomic_rename",
+    "atomic_removeLink", "atomic_ifaceNew_orphan")]
 TRUSTED_BASE = [
     "Model/Topo.lean mirrors by hand the control flow of fim/user/{topology,node,component,network_service,interface,link}.py and the "
     "add_*/remove_* sliver functions of abc_property_graph.py over NetworkXPropertyGraph primitives; checked differentially on every call "
